@@ -446,9 +446,11 @@ def big_near_dups(rng, alias=False):
     """a list of several similar records (so that pairing really happens):
     items share most of their content"""
     n = rng.randint(3, 6)
-    kind = rng.choice(["dict", "list", "tuple", "mixed"])
+    kind = rng.choice(["dict", "list", "tuple", "mixed", "bdict"])
 
     def record(i):
+        if kind == "bdict":      # bytes-keyed dicts as list items (distance of such items raised before 3adbf05)
+            return {b"id": i, b"k": rng.choice(STRS), "tags": [rng.randint(0, 3) for _ in range(rng.randint(1, 4))], b"": rng.randint(0, 2) + 0.5}
         if kind == "dict" or (kind == "mixed" and i % 2 == 0):
             return {"id": i, "name": rng.choice(STRS), "tags": [rng.randint(0, 3) for _ in range(rng.randint(1, 4))], "v": rng.randint(0, 2) + 0.5}
         if kind == "tuple":
@@ -509,6 +511,8 @@ FIXED_PAIRS = [
     ((1, 2, (3, 4)), ((4, 3), 2, 1)),
     ([(1, 2), (1, 2)], [(2, 1)]),
     ([{1, 2}, {3}], [{3}, {2, 1}]),
+    ([{b"k": 1, "x": [1, 2]}, {b"k": 2, "x": [3, 4]}, 5, 6, 7], [7, 6, 5, {b"k": 2, "x": [4, 3, 9]}, {b"k": 1, "x": [2, 1]}]),
+    ([{b"k": 1, "x": [1, 2]}, 5], [5, {b"k": 3, "x": [2, 1]}]),
     ([[]], [[], []]),
     ([], [[]]),
     ([[1, 2], [2, 1]], [[1, 2]]),
